@@ -649,6 +649,7 @@ type outcome struct {
 	defects     []string
 	machinery   string
 	windowsHit  map[string]int
+	notes       []string
 }
 
 func refsOfModel(pages [][]mRef) [][]realRef {
@@ -740,6 +741,59 @@ func classify(real, want []realRef) string {
 	}
 }
 
+// diagnose labels an omission with the key of the known defect it matches, by differential
+// experiments on copies of the node's database (independent of the model):
+//   - a NEW process on the same database answers correctly and the omitted events lie outside the
+//     running window  => only the in-memory LRU of persisted windows was stale        (H1)
+//   - correct once the shutdown snapshot is removed                                   (H2)
+//   - correct once the persisted windows are removed too (full rebuild from headers)  (H19)
+// "" when none of them explains it.
+func (r *replayer) diagnose(a *mAct, got, want []realRef) string {
+	if k := classify(got, want); k != "false-negative" && k != "wrong-events" {
+		return ""
+	}
+	mem, ok := r.node.Store.(*memory.Database)
+	if !ok {
+		return ""
+	}
+	exactOn := func(store db.KeyValueStore) bool {
+		saved := r.node
+		r.node = chainkit.NewNode(store, saved.NewState, r.opts()...)
+		q := r.query(a)
+		r.node = saved
+		return q.err == "" && q.bad == "" && eqRefs(concat(q.pages), want)
+	}
+	if exactOn(mem.Copy()) {
+		head := r.in.Base + uint64(len(r.oracle)) - 1
+		runningWindow := (head + 1) / r.in.W
+		have := map[realRef]bool{}
+		for _, e := range got {
+			have[e] = true
+		}
+		for _, e := range want {
+			if !have[e] && uint64(e.B)/r.in.W == runningWindow {
+				return "" // the running window itself was wrong in memory
+			}
+		}
+		return keyStaleCache
+	}
+	c2 := mem.Copy()
+	_ = c2.Delete(db.RunningEventFilter.Key())
+	if exactOn(c2) {
+		return keyStaleSnapshot
+	}
+	c3 := mem.Copy()
+	_ = c3.Delete(db.RunningEventFilter.Key())
+	head := r.in.Base + uint64(len(r.oracle))
+	for wi := uint64(0); wi <= head/r.in.W+1; wi++ {
+		_ = c3.Delete(db.AggregatedBloomFilterKey(wi*r.in.W, wi*r.in.W+r.in.W-1))
+	}
+	if exactOn(c3) {
+		return keyStalePersist
+	}
+	return ""
+}
+
 func replayOne(in *input, idx int, beh []step, m meta) (oc outcome) {
 	oc = outcome{index: idx, actions: map[string]int{}, conform: true, windowsHit: map[string]int{}}
 	im, err := baseImage(in.Base, m.Variant&1 != 0)
@@ -752,10 +806,11 @@ func replayOne(in *input, idx int, beh []step, m meta) (oc outcome) {
 	r.node = chainkit.NewNode(im.store.Copy(), m.Variant&1 != 0, r.opts()...)
 	proj := &projector{at: at, cache: map[string]decoded{}}
 
-	// A behaviour that exhibits a defect the model predicts is recorded for replay in "oracle" mode:
-	// the replay then judges the property only (answers against the stored receipts, Store/Revert
-	// not refused), so that it passes once the defect is repaired although the recorded expectations
-	// are those of the defective model.
+	// "oracle" mode judges the property only: every answer against the receipts the harness stored,
+	// Store/RevertHead not refused. It is used for the directed scenarios (which carry no model
+	// expectations), for replays of behaviours that exhibited a known defect (they must pass once
+	// the defect is repaired), and for the rest of a behaviour after the model predicted a defect
+	// that the code does not have.
 	oracleOnly := in.Mode == "oracle"
 	mkInput := func(si int, mode string) any {
 		j := vh.J{"w": in.W, "base": in.Base, "behaviours": [][]step{beh[:si+1]}, "meta": []meta{m}}
@@ -764,12 +819,19 @@ func replayOne(in *input, idx int, beh []step, m meta) (oc outcome) {
 		}
 		return j
 	}
+	isDefectKey := func(key string) bool {
+		return key == keyStaleCache || key == keyStaleSnapshot || key == keyStoreRejected || key == keyStalePersist
+	}
 	diverge := func(si int, key, what string, exp, obs any) {
 		mode := ""
-		if key == keyStaleCache || key == keyStaleSnapshot || key == keyStoreRejected || key == keyStalePersist {
+		if oracleOnly || isDefectKey(key) {
 			mode = "oracle"
 		}
 		oc.divergences = append(oc.divergences, vh.Divergence{Key: key, What: what, Input: mkInput(si, mode), Step: si, Expected: exp, Observed: obs})
+	}
+	notInCode := func(si int, what string) {
+		oc.notes = append(oc.notes, fmt.Sprintf("behaviour %d step %d: %s", idx, si, what))
+		oracleOnly = true
 	}
 
 	for si := range beh {
@@ -777,6 +839,7 @@ func replayOne(in *input, idx int, beh []step, m meta) (oc outcome) {
 		oc.steps++
 		oc.actions[s.A.Name]++
 		stop := false
+		hasModel := s.Res.Kind != ""
 		switch s.A.Name {
 		case "Store":
 			stored, err := r.store(s.A.Blk)
@@ -784,36 +847,38 @@ func replayOne(in *input, idx int, beh []step, m meta) (oc outcome) {
 				oc.machinery = err.Error()
 				return oc
 			}
-			obs := "ok"
-			if !stored {
-				obs = "err"
-			}
-			if obs != s.Res.Kind && oracleOnly && obs == "ok" {
-				// repaired since the behaviour was recorded
-			} else if obs != s.Res.Kind {
-				oc.conform = false
-				diverge(si, "event-index:conformance:Store:"+obs, fmt.Sprintf("Store of block %d: model %s, real %s (%v)", s.St.Height, s.Res.Kind, obs, err), s.Res.Kind, obs)
-				stop = true
-			} else if obs == "err" {
-				// predicted by the faithful model: the index refuses the next block
-				oc.defects = append(oc.defects, keyStoreRejected)
-				diverge(si, keyStoreRejected, fmt.Sprintf("Blockchain.Store of block %d fails: %v", s.St.Height+1, err), "ok (the index never blocks the chain)", "err")
+			switch {
+			case stored && (!hasModel || s.Res.Kind == "ok"):
+			case stored && oracleOnly:
+			case stored: // the model (a `known` defect switch) predicts a refused Store
+				notInCode(si, "Store succeeds where the model predicts that the index refuses the block")
+			default:
+				key := "event-index:store-rejected:other"
+				if strings.Contains(err.Error(), "is not within range") {
+					key = keyStoreRejected
+				}
+				if hasModel && s.Res.Kind == "err" && key == keyStoreRejected {
+					oc.defects = append(oc.defects, key) // predicted by the faithful model
+				} else {
+					oc.conform = false
+					stop = true
+				}
+				diverge(si, key, fmt.Sprintf("Blockchain.Store of block %d fails: %v", in.Base+uint64(len(r.oracle)), err), "ok (the index never blocks the chain)", "err")
 			}
 		case "Revert":
 			err := r.node.BC.RevertHead()
-			obs := "ok"
-			if err != nil {
-				obs = "err"
-			} else {
+			if err == nil {
 				r.oracle = r.oracle[:len(r.oracle)-1]
 			}
-			if obs != s.Res.Kind && oracleOnly && obs == "ok" {
-				// repaired since the behaviour was recorded
-			} else if obs != s.Res.Kind {
-				oc.conform = false
-				diverge(si, "event-index:conformance:Revert:"+obs, fmt.Sprintf("RevertHead: model %s, real %s (%v)", s.Res.Kind, obs, err), s.Res.Kind, obs)
-				stop = true
-			} else if obs == "err" {
+			switch {
+			case err == nil && (!hasModel || s.Res.Kind == "ok" || oracleOnly):
+			case err == nil:
+				notInCode(si, "RevertHead succeeds where the model predicts a failure")
+			default:
+				if !(hasModel && s.Res.Kind == "err") {
+					oc.conform = false
+					stop = true
+				}
 				diverge(si, "event-index:revert-rejected", fmt.Sprintf("Blockchain.RevertHead fails: %v", err), "ok", "err")
 			}
 		case "Restart":
@@ -829,13 +894,13 @@ func replayOne(in *input, idx int, beh []step, m meta) (oc outcome) {
 			q := r.query(&s.A)
 			want := r.naive(&s.A)
 			// cross-check of the harness oracle with the model's own naive scan (machinery, not verdict)
-			if !eqRefs(want, concat(refsOfModel([][]mRef{s.Res.Naive}))) {
+			if hasModel && !oracleOnly && !eqRefs(want, concat(refsOfModel([][]mRef{s.Res.Naive}))) {
 				oc.machinery = fmt.Sprintf("behaviour %d step %d: harness oracle %v differs from the model's NaiveScan %v", idx, si, want, s.Res.Naive)
 				return oc
 			}
 			mPages, mToks := refsOfModel(s.Res.Pages), toksOfModel(s.Res.Toks)
-			conf := q.err == "" && s.Res.Kind == "pages" && eqPages(q.pages, mPages) && eqStrings(q.toks, mToks)
-			if q.err != "" && s.Res.Kind == "err" {
+			conf := hasModel && q.err == "" && s.Res.Kind == "pages" && eqPages(q.pages, mPages) && eqStrings(q.toks, mToks)
+			if hasModel && q.err != "" && s.Res.Kind == "err" {
 				conf = true
 			}
 			exact := q.err == "" && q.bad == "" && eqRefs(concat(q.pages), want)
@@ -846,10 +911,14 @@ func replayOne(in *input, idx int, beh []step, m meta) (oc outcome) {
 			}
 			obs := vh.J{"pages": q.pages, "tokens": q.toks, "error": q.err, "content": q.bad}
 			exp := vh.J{"oracle": want, "model_pages": mPages, "model_tokens": mToks, "model_why": s.Res.Why}
+			describe := func() string {
+				return fmt.Sprintf("query %s over %d..%d (chunk %d, limit %d) returns %v %s%s, the stored receipts hold %v",
+					filterString(s.A.F), s.A.From, s.A.To, s.A.Chunk, s.A.Limit, concat(q.pages), q.err, q.bad, want)
+			}
 			switch {
 			case exact && (conf || oracleOnly):
-			case !exact && conf:
-				// the real code violates the property exactly as the faithful model predicts
+			case !exact && conf && !oracleOnly:
+				// the real code violates the property exactly as the model of a `known` defect predicts
 				key := "event-query:model-predicted:" + s.Res.Why
 				switch s.Res.Why {
 				case "cache":
@@ -860,8 +929,7 @@ func replayOne(in *input, idx int, beh []step, m meta) (oc outcome) {
 					key = keyStalePersist
 				}
 				oc.defects = append(oc.defects, key)
-				diverge(si, key, fmt.Sprintf("query %s over %d..%d (chunk %d, limit %d) returns %v, the stored receipts hold %v",
-					filterString(s.A.F), s.A.From, s.A.To, s.A.Chunk, s.A.Limit, concat(q.pages), want), exp, obs)
+				diverge(si, key, describe(), exp, obs)
 			case !exact:
 				oc.conform = false
 				kind := "error"
@@ -875,18 +943,20 @@ func replayOne(in *input, idx int, beh []step, m meta) (oc outcome) {
 				default:
 					kind = classify(concat(q.pages), want)
 				}
-				diverge(si, "event-query:"+kind, fmt.Sprintf("query %s over %d..%d (chunk %d, limit %d): real %v %s%s, stored receipts hold %v",
-					filterString(s.A.F), s.A.From, s.A.To, s.A.Chunk, s.A.Limit, concat(q.pages), q.err, q.bad, want), exp, obs)
-				stop = true
-			default: // exact but not what the model computes
-				oc.conform = false
-				if !s.Res.Exact {
-					// the model (with its current switches) predicts a defect the code does not have
-					diverge(si, "model-mismatch:defect-not-in-code:"+s.Res.Why, "the code answers correctly where the model predicts a false negative", exp, obs)
-				} else {
-					diverge(si, "event-query:paging-conformance", fmt.Sprintf("query %s over %d..%d (chunk %d, limit %d): pages/tokens differ from the specification although their concatenation is right",
-						filterString(s.A.F), s.A.From, s.A.To, s.A.Chunk, s.A.Limit), exp, obs)
+				key := "event-query:" + kind
+				if q.err == "" && q.bad == "" {
+					if dk := r.diagnose(&s.A, concat(q.pages), want); dk != "" {
+						key = dk // the omission has the signature of a known defect
+					}
 				}
+				diverge(si, key, describe(), exp, obs)
+				stop = true
+			case !s.Res.Exact: // exact, but the model (a `known` defect switch) predicts a false negative
+				notInCode(si, "the code answers correctly where the model predicts a false negative caused by: "+s.Res.Why)
+			default: // exact but not what the specification computes
+				oc.conform = false
+				diverge(si, "event-query:paging-conformance", fmt.Sprintf("query %s over %d..%d (chunk %d, limit %d): pages/tokens differ from the specification although their concatenation is right",
+					filterString(s.A.F), s.A.From, s.A.To, s.A.Chunk, s.A.Limit), exp, obs)
 				stop = true
 			}
 		default:
@@ -896,7 +966,7 @@ func replayOne(in *input, idx int, beh []step, m meta) (oc outcome) {
 		if stop {
 			return oc
 		}
-		if oracleOnly {
+		if oracleOnly || !hasModel {
 			continue
 		}
 		rs, err := proj.project(r.node.Store, in.W)
@@ -988,6 +1058,7 @@ func TestEventsReplay(t *testing.T) {
 	windows := map[string]int{}
 	perBehaviour := []vh.J{}
 	nonConform, withDefect := 0, 0
+	notes := []string{}
 	for _, oc := range results {
 		if oc.machinery != "" {
 			t.Fatalf("machinery failure in behaviour %d: %s", oc.index, oc.machinery)
@@ -1001,6 +1072,7 @@ func TestEventsReplay(t *testing.T) {
 		for k, v := range oc.windowsHit {
 			windows[k] += v
 		}
+		notes = append(notes, oc.notes...)
 		if !oc.conform {
 			nonConform++
 		}
@@ -1023,6 +1095,10 @@ func TestEventsReplay(t *testing.T) {
 	}
 	out.Stats["actions_replayed"] = actions
 	out.Stats["events_returned_per_window"] = windows
+	if len(notes) > 8 {
+		notes = append(notes[:8], fmt.Sprintf("(+%d more)", len(notes)-8))
+	}
+	out.Stats["notes_model_predicts_defect_not_in_code"] = notes
 	out.Stats["behaviours_not_conforming"] = nonConform
 	out.Stats["behaviours_exhibiting_known_defect_shape"] = withDefect
 	if in.Mode == "calibrate" {
